@@ -104,21 +104,39 @@ func ruleC05R2(r *Run) {
 		}
 		n++
 		name := fnName(fn)
-		ok := false
-		if fn.Parent() != nil {
-			val, uses, okv := funcValueUses(fn)
-			if okv {
-				for _, u := range uses {
-					if cc := instrCall(u); cc != nil && cc.StaticCallee() == send {
-						for _, a := range cc.Args {
-							if a == val {
-								ok = true
+		// in a function literal handed to send — or in an unexported helper that is only ever called from such literals
+		var inSendLiteral func(f *ssa.Function, depth int) bool
+		inSendLiteral = func(f *ssa.Function, depth int) bool {
+			if f.Parent() != nil {
+				val, uses, okv := funcValueUses(f)
+				if okv {
+					for _, u := range uses {
+						if cc := instrCall(u); cc != nil && cc.StaticCallee() == send {
+							for _, a := range cc.Args {
+								if a == val {
+									return true
+								}
 							}
 						}
 					}
 				}
+				return false
 			}
+			if depth >= 2 || (f.Object() != nil && f.Object().Exported()) {
+				return false
+			}
+			sites := p.staticCallSites(f)
+			if len(sites) == 0 {
+				return false
+			}
+			for _, s := range sites {
+				if _, isCall := s.(*ssa.Call); !isCall || !inSendLiteral(s.Parent(), depth+1) {
+					return false
+				}
+			}
+			return true
 		}
+		ok := inSendLiteral(fn, 0)
 		r.Check(name+" "+callName(c)[strings.LastIndexByte(callName(c), '.')+1:], ok, posOf(p, c), name, "the request must be issued inside a closure passed to (*Conn).send so that it is re-sent after a reconnect")
 	}
 	if n < 4 {
@@ -535,7 +553,39 @@ func ruleC05R6(r *Run) {
 					resumeC = ins
 				}
 			})
-			ok := inLoop(s) && waitC != nil && resumeC != nil && dominatesInstr(waitC, resumeC) && reachesWithoutBlock(resumeC.Block(), s.Block())
+			stepForm := false
+			var argWait, argResume ssa.Instruction
+			argFn := sup
+			if waitC == nil || resumeC == nil {
+				// "wait for the connection, then resume" may be one step of the supervisor moved into a helper that the
+				// loop calls: the helper contains both, in that order; the call of the helper stands for them
+				allInstrs(sup, func(ins ssa.Instruction) {
+					c, isC := ins.(*ssa.Call)
+					if !isC || stepForm {
+						return
+					}
+					h := c.Call.StaticCallee()
+					if h == nil || !p.Analysed(h) || h.Pkg != sup.Pkg || h == run || h == resume {
+						return
+					}
+					var w2, r2 ssa.Instruction
+					allInstrs(h, func(x ssa.Instruction) {
+						if isCallNamed(x, "/iscp.connStatus.WaitUntil", "/iscp.connStatus.WaitUntilOrClosed") {
+							if v, isK := constInt(instrCall(x).Args[2]); isK && v == connected {
+								w2 = x
+							}
+						}
+						if c2, ok := x.(*ssa.Call); ok && c2.Call.StaticCallee() == resume {
+							r2 = x
+						}
+					})
+					if w2 != nil && r2 != nil && dominatesInstr(w2, r2) {
+						waitC, resumeC, stepForm = ins, ins, true
+						argWait, argResume, argFn = w2, r2, h
+					}
+				})
+			}
+			ok := inLoop(s) && waitC != nil && resumeC != nil && (stepForm || dominatesInstr(waitC, resumeC)) && reachesWithoutBlock(resumeC.Block(), s.Block())
 			// the run failure edge reaches the wait
 			if ok {
 				if c, isCall := s.(*ssa.Call); isCall {
@@ -558,7 +608,11 @@ func ruleC05R6(r *Run) {
 			r.Check(name+" supervises "+typ, ok, posOf(p, s), name, "run in a loop; on failure: WaitUntil(Connected) then resume then run again")
 			// the wire connection handed to resume is read after the wait returned, never before it (a value read before
 			// the wait is the connection that just died)
-			if waitC != nil && resumeC != nil {
+			if !stepForm {
+				argWait, argResume = waitC, resumeC
+			}
+			if argWait != nil && argResume != nil {
+				waitC, resumeC, sup := argWait, argResume, argFn
 				for i, a := range instrCall(resumeC).Args[1:] {
 					var defs []ssa.Instruction
 					switch x := a.(type) {
